@@ -775,3 +775,192 @@ def search(ctx, verdict, problems):
     ctx.notes.append('search after %d broken obligation(s)/correspondence(s): window drivers rerun with the intensive scope, %d concrete failing schedule(s) found' % (
         len(problems), len(verdict.violations) - before))
     return any(not noinput for _, noinput, _ in verdict.violations[before:])
+
+
+# ==========================================================================================
+# C11: garbage through the receive loop (switchboard.deplex), not only through recvDataFromRemote
+def c11_gen(ctx, intensive=False):
+    rng = ctx.rng
+    cases = []
+
+    def hexr(n):
+        return bytes(rng.randrange(256) for _ in range(n)).hex() or '-'
+
+    def garbage(method, conn, stale=None):
+        """one garbage record; for the plain method (no authentication) only what the length check refuses;
+        stale = (sid, seq) of a frame an ordered stream has already been given: a well-formed frame that
+        recvDataFromRemote refuses with an error (sequence number below the next expected)"""
+        if stale and rng.random() < 0.2:
+            return 'V:%d:%d:%d:0:%s' % (conn, stale[0], stale[1], hexr(3)), 'stale-seq'
+        if method == 0:
+            n = rng.choice([0, 1, 5, 21])
+            return 'R:%d:%s' % (conn, hexr(n)), 'too-short(%d)' % n
+        k = rng.randrange(6)
+        sid, seq, pl = rng.choice([1, 2, 9]), rng.randrange(0, 8), hexr(rng.choice([1, 3, 40]))
+        if k == 0:
+            n = rng.choice([22, 23, 30, 64, 300, 2000])
+            return 'R:%d:%s' % (conn, hexr(n)), 'random(%d)' % n
+        if k == 1:
+            n = rng.choice([0, 1, 13, 21])
+            return 'R:%d:%s' % (conn, hexr(n)), 'too-short(%d)' % n
+        if k == 2:
+            keep = rng.choice([0, 5, 21, 22, 23, 29, 31])
+            return 'T:%d:%d:%d:%d:%s' % (conn, keep, sid, seq, pl), 'truncated(%d)' % keep
+        if k == 3:
+            return 'K:%d:%d:%d:%s' % (conn, sid, seq, pl), 'foreign-key'
+        bit = rng.randrange(0, 4000)
+        return 'F:%d:%d:%d:%d:%s' % (conn, bit, sid, seq, pl), 'bit-flip'
+
+    def build(cid, method, unordered, nconn, ngarb_fn, nvalid=4):
+        toks, plan = [], []
+        nxt = {1: 0, 2: 0}
+        closed = set()
+        for step in range(nvalid):
+            sid = 1 if step % 3 != 2 else 2
+            if sid in closed:
+                sid = 2
+            conn = rng.randrange(nconn)
+            closing = 1 if (step == nvalid - 1 and rng.random() < 0.4) else 0
+            pl = hexr(rng.choice([1, 2, 17]))
+            toks.append('V:%d:%d:%d:%d:%s' % (conn, sid, nxt[sid], closing, pl))
+            plan.append(('V', sid, closing, pl))
+            nxt[sid] += 1
+            if closing:
+                closed.add(sid)
+            toks.append('Q'); plan.append(('Q',))
+            kinds = []
+            for _ in range(ngarb_fn()):
+                live = [(sd, rng.randrange(nxt[sd])) for sd in nxt if nxt[sd] > 0 and sd not in closed]
+                g, kind = garbage(method, rng.randrange(nconn), rng.choice(live) if (live and not unordered) else None)
+                toks.append(g); kinds.append(kind)
+            if kinds:
+                toks.append('Q'); plan.append(('Q',))
+            plan.append(('G', kinds))
+        toks.append('Q'); plan.append(('Q',))
+        line = '%s L %d %d %d %s' % (cid, method, unordered, nconn, ' '.join(toks))
+        return (cid, line, dict(method=method, unordered=unordered, nconn=nconn, plan=plan))
+
+    n = 0
+    # every single bit of a short valid frame, one at a time, between two valid frames (AEAD methods)
+    for method in (1, 2, 3):
+        nbits = 8 * (14 + 1 + 16 + 0) if ctx.quick() and not intensive else 8 * 60
+        for bit in range(0, nbits, 1 if (intensive or not ctx.quick()) else 3):
+            cid = 'lb%d' % n; n += 1
+            toks = ['V:0:1:0:0:41', 'Q', 'F:0:%d:1:7:42' % bit, 'Q', 'V:0:1:1:0:43', 'Q']
+            plan = [('V', 1, 0, '41'), ('Q',), ('G', ['bit-flip(%d)' % bit]), ('Q',), ('V', 1, 0, '43'), ('Q',)]
+            cases.append((cid, '%s L %d 0 1 %s' % (cid, method, ' '.join(toks)), dict(method=method, unordered=0, nconn=1, plan=plan)))
+    for i in range(120 if ctx.quick() and not intensive else 1500):
+        cid = 'lg%d' % i
+        cases.append(build(cid, i % 4, rng.randrange(2), rng.choice([1, 2, 3]), lambda: rng.choice([0, 1, 1, 2, 5])))
+    return cases
+
+
+def c11_expected(meta):
+    """what the property demands at every Q: garbage has no effect, valid frames are delivered"""
+    out = []
+    pending = {}
+    known, closed = [], set()
+    for st in meta['plan']:
+        if st[0] == 'V':
+            _, sid, closing, pl = st
+            if sid not in known:
+                known.append(sid)
+            if closing:
+                closed.add(sid)
+            else:
+                pending.setdefault(sid, []).append(pl)
+        elif st[0] == 'Q':
+            ss = []
+            for sid in sorted(known):
+                parts = pending.pop(sid, [])
+                data = ('/'.join(parts) if meta['unordered'] else ''.join(parts)) if parts else '-'
+                ss.append('%d=%s%s' % (sid, data, '!' if sid in closed else '.'))
+            out.append('q:0:0:0:' + ','.join(ss))
+    return out
+
+
+def c11_run(ctx, lines, tag):
+    inp = '%s/%s.in' % (ctx.work, tag); out = '%s/%s.go.out' % (ctx.work, tag)
+    open(inp, 'w').write('\n'.join(lines) + '\n')
+    if os.path.exists(out):
+        os.remove(out)
+    rc, log, dt = vlib.go_test(ctx, 'multiplex', 'TestVerifC11Loop', files=['c11_loop_test.go'], env=dict(VERIF_IN=inp, VERIF_OUT=out), timeout=300)
+    return rc, log, vlib.read_lines_by_id(out), dt
+
+
+def c11_describe(meta, got, exp):
+    steps = ['session: encryption method %d, %s, %d connection(s) (TLSConn over harness-owned byte streams), receive loops = switchboard.deplex' % (
+        meta['method'], 'unordered' if meta['unordered'] else 'ordered', meta['nconn'])]
+    qi = 0
+    for st in meta['plan']:
+        if st[0] == 'V':
+            steps.append('valid %s frame for stream %d%s' % ('closing' if st[2] else 'data', st[1], '' if st[2] else ' payload ' + st[3]))
+        elif st[0] == 'G' and st[1]:
+            steps.append('garbage records: ' + ', '.join(st[1]))
+        elif st[0] == 'Q':
+            g = got[qi] if qi < len(got) else '(missing)'
+            steps.append('settle -> observed %s%s' % (g, '' if g == exp[qi] else '   EXPECTED ' + exp[qi]))
+            qi += 1
+    return steps
+
+
+def c11_loop(ctx, verdict, intensive=False):
+    broken = []
+    cases = c11_gen(ctx, intensive)
+    rc, log, impl, dt = c11_run(ctx, [c[1] for c in cases], 'loop')
+    if rc != 0 or not impl:
+        broken.append(('Go driver TestVerifC11Loop (garbage through the receive loop) failed to build or run', log[-3000:]))
+        return broken
+    fails = []
+    kinds = {}
+    for cid, line, meta in cases:
+        io = impl.get(cid)
+        if io is None:
+            continue
+        for st in meta['plan']:
+            if st[0] == 'G':
+                for k in st[1]:
+                    kk = re.sub(r'\(.*', '', k) + '/m%d' % meta['method']
+                    kinds[kk] = kinds.get(kk, 0) + 1
+        got, exp = io.split(), c11_expected(meta)
+        if got != exp:
+            i = next((j for j in range(min(len(got), len(exp))) if got[j] != exp[j]), min(len(got), len(exp)))
+            g = got[i] if i < len(got) else '(nothing)'
+            f = g.split(':')
+            if io.startswith('PANIC'):
+                msg = 'the receive path panicked: ' + io[:200]
+            elif len(f) >= 4 and (f[1] == '1' or f[2] != '0'):
+                msg = 'after garbage on a connection the session was closed (closed=%s, %s Close calls on its connections): one undecodable message tore the whole session down instead of being dropped' % (f[1], f[2])
+            elif len(f) >= 4 and f[3] != '0':
+                msg = 'the session sent %s frame(s) of its own in reaction to received records' % f[3]
+            else:
+                msg = 'observation %d is %s, the property demands %s (valid frames before and after delivered, garbage without effect)' % (i, g, exp[i] if i < len(exp) else '(nothing)')
+            fails.append((len(line), cid, line, meta, io, msg, got, exp))
+    seen = set()
+    for _, cid, line, meta, io, msg, got, exp in sorted(fails)[:30]:
+        key = re.sub(r'\d+', 'N', msg)[:40]
+        if key in seen or len(seen) >= 2:
+            continue
+        seen.add(key)
+        verdict.oracle_failure('loop:' + key, 'C11 oracle (garbage through the receive loop): ' + msg,
+                               dict(kind='window', driver='c11', case=line, meta=meta, implementation=io, schedule=c11_describe(meta, got, exp),
+                                    how='python3 tools/check.py C11 --replay <this file>  (VERIF_IN=<file with the case line> go test -overlay .. -run TestVerifC11Loop ./internal/multiplex/)'))
+    verdict.cov['receive_loop_cases'] = dict(cases=len(cases), ran=len(impl), garbage_kinds=dict(sorted(kinds.items())), oracle_failures=len(fails), go_seconds=round(dt, 1),
+                                             rule='real Session over TLSConns on harness-owned byte streams (1-3 connections, 4 methods, ordered/unordered); valid frames interleaved with garbage records (random bytes, too short, empty record, truncated valid frame, every single-bit flip of a short valid frame except header bytes 12-13, frame under another key; for the plain method only what the length check refuses); after every batch: session open, no Close on any connection, no frame sent, exactly the valid frames delivered, no other stream')
+    verdict.cov['evaluations'] = verdict.cov.get('evaluations', 0) + len(cases)
+    return broken
+
+
+def c11_replay(ctx, r):
+    rc, log, impl, dt = c11_run(ctx, [r['case']], 'replay')
+    io = impl.get(r['case'].split()[0]) or ''
+    exp = c11_expected(r['meta'])
+    for s in c11_describe(r['meta'], io.split(), exp):
+        print('  ', s)
+    bad = io.split() != exp
+    print('oracle:', 'differs from what the property demands' if bad else None)
+    return 1 if bad else 0
+
+
+REPLAY['c11'] = c11_replay
+WINDOWS['C11'] = c11_loop
